@@ -35,6 +35,9 @@ pub enum End {
 pub struct History {
     pub ops: Vec<Op>,
     pub end: End,
+    /// labels repeat (e0 e0 e1 e1 e0 ..): equal errors recorded next to each other are still separate errors
+    #[serde(default)]
+    pub repeat_labels: bool,
 }
 
 fn op() -> impl Strategy<Value = Op> {
@@ -74,7 +77,7 @@ pub fn history() -> impl Strategy<Value = History> {
         ],
         0..24,
     );
-    (prop_oneof![heavy, okish], end()).prop_map(|(ops, end)| History { ops, end })
+    (prop_oneof![heavy, okish], end(), prop::bool::weighted(0.3)).prop_map(|(ops, end, repeat_labels)| History { ops, end, repeat_labels })
 }
 
 /// The same histories decoded from bytes (for the coverage-guided driver).
@@ -102,7 +105,7 @@ pub fn history_from(d: &mut vmodel::dec::D) -> History {
         2 => End::IntoInner,
         _ => End::Drop,
     };
-    History { ops, end }
+    History { ops, end, repeat_labels: d.ratio(1, 3) }
 }
 
 fn lbl(n: usize) -> String {
@@ -138,15 +141,16 @@ pub fn check(ctx: &Ctx, h: &History) -> Result<(), Fail> {
     let mut next = 0usize;
     let mut recording_ops = 0usize;
     let mut checkpoints = 0usize;
+    let repeat = h.repeat_labels;
     let mut fresh = |k: usize, next: &mut usize| -> (Error, Vec<String>) {
         if k <= 1 {
-            let l = lbl(*next);
+            let l = lbl(if repeat { *next / 2 % 2 } else { *next });
             *next += 1;
             (Error::custom(&l), vec![l])
         } else {
             let ls: Vec<String> = (0..k)
                 .map(|_| {
-                    let l = lbl(*next);
+                    let l = lbl(if repeat { *next / 2 % 2 } else { *next });
                     *next += 1;
                     l
                 })
@@ -479,6 +483,7 @@ fn unwind_probes(ctx: &Ctx, count: usize) -> bool {
         let h = History {
             ops: vec![Op::Push; recorded],
             end: End::DropDuringUnwind,
+            repeat_labels: false,
         };
         ctx.nontrivial(&(recorded, mode, "unwind"));
         ctx.class("end:DropDuringUnwind");
@@ -506,16 +511,16 @@ fn unwind_probes(ctx: &Ctx, count: usize) -> bool {
 
 fn regress_cases() -> Vec<History> {
     vec![
-        History { ops: vec![], end: End::Finish },
-        History { ops: vec![], end: End::Drop },
-        History { ops: vec![Op::Push], end: End::Drop },
-        History { ops: vec![Op::Push, Op::HandleErr, Op::Extend(2)], end: End::Drop },
-        History { ops: vec![Op::Push], end: End::Finish },
-        History { ops: vec![Op::Checkpoint, Op::Push, Op::Checkpoint], end: End::Finish },
-        History { ops: vec![Op::Checkpoint, Op::Checkpoint], end: End::Drop },
-        History { ops: vec![Op::Extend(3), Op::HandleInErr, Op::PushBundle(2)], end: End::FinishWith(7) },
-        History { ops: vec![Op::HandleOk(1), Op::HandleInOk(2), Op::Extend(0)], end: End::FinishWith(9) },
-        History { ops: vec![Op::Push, Op::Extend(1)], end: End::IntoInner },
+        History { ops: vec![], end: End::Finish, repeat_labels: false },
+        History { ops: vec![], end: End::Drop, repeat_labels: false },
+        History { ops: vec![Op::Push], end: End::Drop, repeat_labels: false },
+        History { ops: vec![Op::Push, Op::HandleErr, Op::Extend(2)], end: End::Drop, repeat_labels: false },
+        History { ops: vec![Op::Push], end: End::Finish, repeat_labels: false },
+        History { ops: vec![Op::Checkpoint, Op::Push, Op::Checkpoint], end: End::Finish, repeat_labels: false },
+        History { ops: vec![Op::Checkpoint, Op::Checkpoint], end: End::Drop, repeat_labels: false },
+        History { ops: vec![Op::Extend(3), Op::HandleInErr, Op::PushBundle(2)], end: End::FinishWith(7), repeat_labels: false },
+        History { ops: vec![Op::HandleOk(1), Op::HandleInOk(2), Op::Extend(0)], end: End::FinishWith(9), repeat_labels: false },
+        History { ops: vec![Op::Push, Op::Extend(1)], end: End::IntoInner, repeat_labels: false },
     ]
 }
 
